@@ -613,6 +613,13 @@ func Execute(sc *Scenario, base, index uint64, tier string, suppress []string, t
 			}()
 			sc.Fn(r)
 			res.SimNS = int64(time.Since(r.start))
+			if sc.Yields {
+				// a goroutine that the yield scheduler is holding in a stall (up to 2 s) when the scenario
+				// returns would be counted as left behind: time stops in a bubble whose main function has
+				// returned.  Let the stalls run out first (no new ones are started).
+				r.YieldsOn(false)
+				time.Sleep(3 * time.Second)
+			}
 			r.endSim = res.SimNS
 		})
 	}()
